@@ -2,6 +2,6 @@ CONSTANTS TS = {6,7,8,9,10,11,12,13}  Vs = {"i1","f","m"}  Durs = {1,2,3,5}  Cap
 INIT Init
 NEXT Next
 CONSTRAINT Bound
-INVARIANTS TumblingPlacement ProcessedIsPlacedOnce SlidingNoOld AlphaAfterAccept BatchPlacement
+INVARIANTS TumblingPlacement ProcessedIsPlacedOnce SlidingNoOld AlphaAfterAccept BatchPlacement RetentionShape
 PROPERTIES SlidingKeepsYoung
 CHECK_DEADLOCK FALSE
